@@ -41,6 +41,35 @@ def fp_const(t):
     if not z3.is_bv_value(bv): return None
     return struct.unpack("<d", struct.pack("<Q", bv.as_long()))[0]
 
+def zi_of(t):
+    """mathematical-integer view of a bit-vector term built as Int2BV(k, w) (math mode, see Executor.fpmode == 'real'):
+    returns k (an Int term, canonical for an unsigned type) or None"""
+    if not z3.is_expr(t) or not z3.is_bv(t): return None
+    if z3.is_bv_value(t): return z3.IntVal(t.as_long())
+    k=t.decl().kind()
+    if k==z3.Z3_OP_INT2BV: return t.arg(0)
+    if k==z3.Z3_OP_ITE:
+        a=zi_of(t.arg(1)); b=zi_of(t.arg(2))
+        if a is None or b is None: return None
+        return z3.If(t.arg(0), a, b)
+    return None
+
+def canon(k, ty):
+    """canonical representative of Int k in the value range of integer type ty"""
+    w=ty.bitwidth
+    k=z3.simplify(k)
+    if z3.is_int_value(k):
+        v=k.as_long() % (1<<w)
+        if ty.signed and v >= (1<<(w-1)): v-=(1<<w)
+        return z3.IntVal(v)
+    if ty.signed:
+        return (k + (1<<(w-1))) % (1<<w) - (1<<(w-1))
+    return k % (1<<w)
+
+def mathint(k, ty):
+    """Val of integer type ty holding the canonical Int k (term = Int2BV(k))"""
+    return Val(ty, z3.Int2BV(k, ty.bitwidth))
+
 class Val:
     """typed value.  For float64 values that are known to equal an exact (small) integer, `iv` carries that integer as
     a signed 64-bit term with |iv| < 2^40: int->float casts of <=32-bit ints, and sums/differences of such values.
@@ -65,6 +94,16 @@ def cast(v, toty, ex=None):
     if not isinstance(v, Val): return v
     fr = v.ty
     if fr == toty: return v
+    if ex is not None and getattr(ex,'fpmode','fp')=='real' and is_int(fr) and (is_int(toty) or is_float(toty)):
+        k=zi_of(v.t)
+        if k is not None:
+            if is_float(toty):
+                c=z3.simplify(k)
+                iv=z3.BitVecVal(c.as_long(),64) if z3.is_int_value(c) and abs(c.as_long())<(1<<40) else None
+                return Val(toty, z3.ToReal(k), iv, 41)
+            # value-preserving if the source range fits, else wrap
+            fits = (fr.signed==toty.signed and toty.bitwidth>=fr.bitwidth) or (not fr.signed and toty.signed and toty.bitwidth>fr.bitwidth)
+            return mathint(k if fits else canon(k,toty), toty)
     if is_int(fr) and is_int(toty):
         if toty.bitwidth == fr.bitwidth: return Val(toty, v.t)
         if toty.bitwidth < fr.bitwidth: return Val(toty, simp(push_trunc(v.t, toty.bitwidth)))
@@ -75,6 +114,21 @@ def cast(v, toty, ex=None):
     if is_int(fr) and is_bool(toty):
         return Val(toty, v.t != 0)
     if is_bool(fr) and is_bool(toty): return v
+    realmode = ex is not None and getattr(ex,'fpmode','fp')=='real'
+    if realmode and is_int(fr) and is_float(toty):
+        ext=(z3.SignExt if fr.signed else z3.ZeroExt)
+        iv=simp(ext(64-fr.bitwidth, v.t)) if fr.bitwidth<64 else v.t
+        return Val(toty, z3.ToReal(z3.BV2Int(v.t, is_signed=fr.signed)), iv if fr.bitwidth<=32 else None, fr.bitwidth+1)
+    if realmode and is_float(fr) and is_int(toty):
+        # C cast truncates toward zero; out-of-range is undefined -> obligation
+        # math mode: the truncated value is a fresh Int bracketed by the real (non-negative case; negative values
+        # are reported through the range obligation); the range obligation is recorded and ASSUMED afterwards
+        ex._nfresh=getattr(ex,'_nfresh',0)+1
+        tr=z3.Int(f"trunc{ex._nfresh}")
+        lo,hi=((-(1<<(toty.bitwidth-1))),(1<<(toty.bitwidth-1))-1) if toty.signed else (0,(1<<toty.bitwidth)-1)
+        ex.fp2int.append((z3.And(*getattr(ex,'cur_pc',[]), z3.Or(v.t<lo, v.t>=hi+1)), toty))
+        ex.trunc_defs.append(z3.And(z3.ToReal(tr)<=v.t, v.t<z3.ToReal(tr)+1))
+        return mathint(tr, toty)
     if is_int(fr) and is_float(toty):
         if toty.bitwidth != 64: raise Unsupported("float32")
         if fr.bitwidth<=32:
@@ -84,6 +138,11 @@ def cast(v, toty, ex=None):
         c=as_const(v.t)
         if c is not None and c < (1<<40): return Val(toty, simp(z3.fpUnsignedToFP(RM, v.t, FPS)), z3.BitVecVal(c,64), 41)
         return Val(toty, simp(z3.fpUnsignedToFP(RM, v.t, FPS)))
+    if is_float(fr) and is_int(toty) and v.iv is not None:
+        # the float is exactly the integer iv: conversion is exact when in range (range recorded as obligation)
+        lo,hi=((-(1<<(toty.bitwidth-1))),(1<<(toty.bitwidth-1))-1) if toty.signed else (0,(1<<toty.bitwidth)-1)
+        if ex is not None: ex.fp2int.append((z3.And(*getattr(ex,'cur_pc',[]), z3.Or(v.iv<lo, v.iv>hi)), toty))
+        return Val(toty, simp(z3.Extract(toty.bitwidth-1,0,v.iv)))
     if is_float(fr) and is_int(toty):
         # fptoui/fptosi: undefined if out of range -> record obligation
         if ex is not None: ex.note_fp2int(v, toty)
@@ -254,6 +313,7 @@ def merge_vals(guards, vals):
 
 class Executor:
     def __init__(self, stubs=None, fpmode="fp", max_paths=20000, loop_bound=64, solver_prune=True):
+        self.fpmode=fpmode; self.trunc_defs=[]
         self.stubs = stubs or {}     # py_func name -> callable(ex, state, args, sig) -> Val
         self.ircache=IRCACHE
         self.max_paths=max_paths; self.npaths=0
@@ -331,6 +391,7 @@ class Executor:
             while idx < len(body):
                 st=body[idx]; idx+=1
                 if isinstance(st, ir.Del): continue
+                self.cur_pc=state.pc
                 if isinstance(st, ir.Assign):
                     v=self.eval_assign(st, env, state, args, r, prev)
                     if isinstance(v, list):   # call produced multiple outcomes: fork
@@ -439,6 +500,11 @@ class Executor:
         if isinstance(value, int):
             if t is None or not is_int(t): t=types.int64
             return mk_int(t, value)
+        if isinstance(value, float) and getattr(self,'fpmode','fp')=='real':
+            import fractions
+            fr_=fractions.Fraction(value)
+            iv_=z3.BitVecVal(int(value),64) if value==int(value) and abs(value)<(1<<40) else None
+            return Val(types.float64, z3.RealVal(str(fr_)), iv_, 41)
         if isinstance(value, float):
             if value==int(value) and abs(value)<(1<<40) and not (value==0 and str(value).startswith("-")):
                 return Val(types.float64, z3.FPVal(value, FPS), z3.BitVecVal(int(value),64), 41)
@@ -543,6 +609,21 @@ class Executor:
             raise Unsupported("hash token used other than by % width")
         a=cast(a,ta,self); b=cast(b,tb,self)
         cmpops={operator.lt,operator.le,operator.gt,operator.ge,operator.eq,operator.ne}
+        if self.fpmode=='real' and is_int(ta) and is_int(tb) and isinstance(a,Val) and isinstance(b,Val):
+            ka=zi_of(a.t); kb=zi_of(b.t)
+            if ka is not None and kb is not None:
+                pyop={operator.lt:lambda x,y:x<y,operator.le:lambda x,y:x<=y,operator.gt:lambda x,y:x>y,operator.ge:lambda x,y:x>=y,
+                      operator.eq:lambda x,y:x==y,operator.ne:lambda x,y:x!=y}
+                if fn in pyop: return Val(types.boolean, simp(pyop[fn](ka,kb)))
+                if is_int(rt) and fn in (operator.add, operator.sub, operator.mul):
+                    # operands are first converted to the result type (two's complement), then combined modulo 2^w
+                    ka2=ka if (ta.signed==rt.signed and rt.bitwidth>=ta.bitwidth) or (not ta.signed and rt.bitwidth>ta.bitwidth) else canon(ka,rt)
+                    kb2=kb if (tb.signed==rt.signed and rt.bitwidth>=tb.bitwidth) or (not tb.signed and rt.bitwidth>tb.bitwidth) else canon(kb,rt)
+                    k={operator.add:ka2+kb2, operator.sub:ka2-kb2, operator.mul:ka2*kb2}[fn]
+                    lo,hi=((-(1<<(rt.bitwidth-1))),(1<<(rt.bitwidth-1))-1) if rt.signed else (0,(1<<rt.bitwidth)-1)
+                    # math mode: wrap-around is an obligation (recorded), not modelled
+                    state.oblig.append(("int-wrap", z3.And(*state.pc, z3.Or(k<lo, k>hi))))
+                    return mathint(k, rt)
         if fn in cmpops:
             if is_float(ta) or is_float(tb):
                 A=cast(a,types.float64,self); B=cast(b,types.float64,self)
@@ -551,6 +632,10 @@ class Executor:
                        operator.eq:lambda x,y:x==y,operator.ne:lambda x,y:x!=y}[fn](A.iv,B.iv)
                     return Val(types.boolean, simp(t))
                 fa=A.t; fb=B.t
+                if getattr(self,'fpmode','fp')=='real':
+                    t={operator.lt:lambda x,y:x<y,operator.le:lambda x,y:x<=y,operator.gt:lambda x,y:x>y,operator.ge:lambda x,y:x>=y,
+                       operator.eq:lambda x,y:x==y,operator.ne:lambda x,y:x!=y}[fn](fa,fb)
+                    return Val(types.boolean, simp(t))
                 t={operator.lt:z3.fpLT,operator.le:z3.fpLEQ,operator.gt:z3.fpGT,operator.ge:z3.fpGEQ,operator.eq:z3.fpEQ,operator.ne:z3.fpNEQ}[fn](fa,fb)
                 return Val(types.boolean, simp(t))
             if is_bool(ta) and is_bool(tb):
@@ -569,6 +654,19 @@ class Executor:
                 iv=simp(A.iv+B.iv if fn is operator.add else A.iv-B.iv)
                 return Val(rt, simp(z3.fpSignedToFP(RM, iv, FPS)), iv, max(A.ivb,B.ivb)+1)
             fa=A.t; fb=B.t
+            if getattr(self,'fpmode','fp')=='real':
+                if fn is operator.add: t=fa+fb
+                elif fn is operator.sub: t=fa-fb
+                elif fn is operator.mul: t=fa*fb
+                elif fn is operator.truediv:
+                    state.oblig.append(("float-div-by-zero", z3.And(*state.pc, fb==0)))
+                    t=fa/fb
+                elif fn is operator.pow: t=Executor.POWR(fa,fb)
+                else: raise Unsupported(f"real op {fn}")
+                iv=None; ivb=0
+                if A.iv is not None and B.iv is not None and fn in (operator.add, operator.sub) and max(A.ivb,B.ivb)<45:
+                    iv=simp(A.iv+B.iv if fn is operator.add else A.iv-B.iv); ivb=max(A.ivb,B.ivb)+1
+                return Val(rt, t, iv, ivb)
             if fn is operator.add: t=z3.fpAdd(RM,fa,fb)
             elif fn is operator.sub: t=z3.fpSub(RM,fa,fb)
             elif fn is operator.mul: t=z3.fpMul(RM,fa,fb)
@@ -615,6 +713,7 @@ class Executor:
     def unary(self, fn, a, sig):
         rt=unlit(sig.return_type); a=cast(a, sig.args[0], self)
         if fn is operator.neg:
+            if is_float(rt) and getattr(self,'fpmode','fp')=='real': return Val(rt, -cast(a,rt,self).t)
             if is_float(rt): return Val(rt, simp(z3.fpNeg(cast(a,rt,self).t)))
             return Val(rt, simp(-cast(a,rt,self).t))
         if fn is operator.not_: return Val(types.boolean, simp(z3.Not(cast(a,types.boolean,self).t)))
@@ -633,6 +732,10 @@ class Executor:
         if z3.is_bv_value(x) and z3.is_bv_value(y): return x*y
         if z3.is_bv_value(x) and not z3.is_bv_value(y): x,y=y,x     # constant second
         return Executor.mulsym(w)(x,y)
+    POWR=z3.Function("powr", z3.RealSort(), z3.RealSort(), z3.RealSort())
+    LOGR=z3.Function("logr", z3.RealSort(), z3.RealSort())
+    EXPR=z3.Function("expr", z3.RealSort(), z3.RealSort())
+    EXP=z3.Function("exp", FPS, FPS)
     POW=z3.Function("pow", FPS, FPS, FPS)
     LOG=z3.Function("log", FPS, FPS)
     def uf_pow(self, a, b):
@@ -795,6 +898,11 @@ class Executor:
             else: raise Unsupported("float min/max")
             if f is min: return Val(rt, simp(z3.If(lt,x.t,y.t)))
             return Val(rt, simp(z3.If(lt,y.t,x.t)))
+        if f is np.log or f is np.exp:
+            x=cast(a[0], types.float64, self)
+            if getattr(self,'fpmode','fp')=='real':
+                return Val(types.float64, (Executor.LOGR if f is np.log else Executor.EXPR)(x.t))
+            return Val(types.float64, (Executor.LOG if f is np.log else Executor.EXP)(x.t))
         if f is np.frombuffer:
             b=a[0]; dt=a[1]
             dty = dt if isinstance(dt,types.Type) else numba.from_dtype(np.dtype(dt))
